@@ -121,7 +121,14 @@ func genCase(rt *rapid.T) Case {
 	for i := 1; i <= nvar; i++ {
 		name := fmt.Sprintf("*zg%d*", i)
 		g.GlobalVars = append(g.GlobalVars, name)
-		c.Defs = append(c.Defs, fmt.Sprintf("(defvar %s %d)", name, rapid.IntRange(-2, 4).Draw(rt, "ginit")))
+		// defvar or defparameter; the initial value form may carry a trace mark (9101, 9102): however the definition is
+		// evaluated (list form, compiled, loaded), the form is evaluated exactly once
+		def := []string{"defvar", "defvar", "defparameter"}[rapid.IntRange(0, 2).Draw(rt, "gdef")]
+		init := fmt.Sprint(rapid.IntRange(-2, 4).Draw(rt, "ginit"))
+		if rapid.Bool().Draw(rt, "ginit-marked") {
+			init = fmt.Sprintf("(vt:mark %d %s)", 9100+i, init)
+		}
+		c.Defs = append(c.Defs, fmt.Sprintf("(%s %s %s)", def, name, init))
 	}
 	if rapid.IntRange(0, 2).Draw(rt, "constant") == 0 {
 		// a constant the functions read: defined before or after them like everything else
@@ -212,6 +219,8 @@ type runResult struct {
 	results []string // value text of each evaluation of main (K, then one after the redefinition)
 	traces  []string
 	err     string
+	// initMarks: complaint about how often the marked initial value forms of the definitions were evaluated
+	initMarks string
 }
 
 func reference(c Case, perm []int) runResult {
@@ -316,6 +325,12 @@ func slipRun(c Case, perm []int, mode string) (out runResult) {
 	for _, mc := range c.Macros {
 		defs = append(defs, rn(mc))
 	}
+	ev.ResetTrace()
+	defer func() {
+		if out.err == "" && out.initMarks != "" {
+			out.err = out.initMarks
+		}
+	}()
 	for _, i := range perm {
 		defs = append(defs, rn(c.asMethod(c.Defs[i])))
 	}
@@ -340,6 +355,23 @@ func slipRun(c Case, perm []int, mode string) (out runResult) {
 				out.err = "definition " + d + ": " + o.String()
 				return
 			}
+		}
+	}
+	// the initial value form of every defvar / defparameter has been evaluated once
+	for id := 9101; id <= 9102; id++ {
+		n, want := 0, 0
+		for _, e := range ev.Trace() {
+			if e.ID == fmt.Sprint(id) {
+				n++
+			}
+		}
+		for _, d := range c.Defs {
+			if strings.Contains(d, fmt.Sprintf("(vt:mark %d ", id)) {
+				want = 1
+			}
+		}
+		if n != want {
+			out.initMarks = fmt.Sprintf("the initial value form marked %d was evaluated %d times while the definitions were evaluated (mode %s), expected %d", id, n, mode, want)
 		}
 	}
 	// the same code object of main is evaluated every time
